@@ -494,7 +494,7 @@ pub fn run(tier: Tier, replay: Option<String>) -> i32 {
     if ctx.replay_of.is_some() {
         println!("replay: deterministic search; re-running it");
     }
-    let u = if tier.thorough() { 8 } else { 6 };
+    let u = if tier.thorough() { 11 } else { 6 };
     for base in [0u64, 0x1_0000_0000 - 3, u64::MAX - u as u64] {
         explore(&ctx, base, u);
         builds(&ctx, base, u.min(5), 3);
